@@ -196,6 +196,9 @@ class Interstitial(object):
             ind0, ind1 = np.dot(super0.invsuper, u0) / super0.size, np.dot(super1.invsuper, u1) / super0.size
             # put interstitials at our corresponding sites
             super0[ind0], super1[ind1] = self.chem, self.chem
+            if np.all(super0.occ == super1.occ):
+                warnings.warn('Supercell:\n{}\ntoo small: transition {} ends on a periodic image of '
+                              'its initial site'.format(super_n, tag), RuntimeWarning, stacklevel=2)
             superdict['transitions'][tag] = (super0, super1)
             # determine the mappings:
             superdict['transmapping'][tag] = tuple()
